@@ -231,6 +231,20 @@ def r12_4(ctx: Ctx) -> RuleResult:
                                construct=short(n))
                     else:
                         rr.ok(fn.loc(n), f"{name}: {short(n, 70)}")
+    tk = q.methods.get("take")
+    if tk is not None:
+        for c in calls(tk.node, "Query"):
+            a0 = c.args[0] if c.args else None
+            eager = isinstance(a0, (ast.List, ast.ListComp, ast.Tuple)) or (
+                isinstance(a0, ast.Call) and callee_name(a0) in ("list", "tuple", "deque")
+            ) or (isinstance(a0, ast.Name) and any(
+                isinstance(x, ast.Assign) and path_of(x.targets[0]) == a0.id and isinstance(x.value, ast.Call)
+                and callee_name(x.value) in ("list", "tuple", "deque") for x in ast.walk(tk.node)))
+            if eager:
+                rr.ok(tk.loc(c), "take: the next n matches are taken off the shared iterator at once")
+            else:
+                rr.bad(tk, c, "`take` hands out a lazy view of the shared iterator: which of the two queries gets the "
+                       "leading matches then depends on which one is consumed first", construct=short(c))
     for name in ("take", "tee"):
         fn = q.methods.get(name)
         if fn is None:
